@@ -32,7 +32,7 @@ def gen_cases(tier, seed):
     for name, e in POOL.items():
         for i in range(max(2, reps // e.slow)):
             s = stable_hash(seed, "C06", name, i)
-            cases.append({"family": "pool", "entry": name, "seed": s, "wrap": WRAPS[(i + s) % len(WRAPS)] if i else "none", "prefit": False, "weights": False,
+            cases.append({"family": "pool", "entry": name, "seed": s, "wrap": WRAPS[(i + s) % len(WRAPS)] if i else "none", "prefit": bool((s >> 9) % 2), "weights": False,
                           "nq": 1, "nmax": 12 if tier == "quick" else 20, "rs": ["int", "instance"][(s >> 2) % 2],
                           "data": ["grid", "dups", "const", None][i % 4]})
     # forced tie regimes: cold start / duplicated rows, for every candidate mode the strategy supports
@@ -147,7 +147,31 @@ def run_case(desc):
 
         def repeat():
             qs = make()
-            return qs.query(**call["fresh_kw"]()), qs.query(**call["fresh_kw"]())
+            mode = (desc["seed"] >> 6) % 3
+            if mode == 0:           # equal arguments built anew for the second call
+                return qs.query(**call["fresh_kw"]()), qs.query(**call["fresh_kw"]())
+            kw = call["fresh_kw"]()  # literally the same call: the same array and model objects are handed over again
+            if mode == 2 and not desc["entry"].startswith("ProbCover"):
+                # the answer is a function of the constructor parameters and the call arguments: an object that answered a
+                # DIFFERENT call before (one more label revealed, another batch size) must answer like a fresh one
+                # (ProbCover documents state kept from its first call: update=False)
+                a = make().query(**call["fresh_kw"]())
+                kw_b = call["fresh_kw"]()
+                try:
+                    yb = np.array(kw_b["y"], dtype=float, copy=True)
+                    miss = np.argwhere(np.isnan(yb))
+                    if len(miss):
+                        yb[tuple(miss[0])] = 0.0
+                    kw_b["y"] = yb
+                    if isinstance(kw_b.get("batch_size"), (int, np.integer)):
+                        # (the next cycle of a loop: one label more, one sample fewer to pick)
+                        kw_b["batch_size"] = kw_b["batch_size"] - 1 if kw_b["batch_size"] > 1 else 2
+                    qs.query(**kw_b)
+                except Exception:
+                    pass
+                return a, qs.query(**kw)
+            a = qs.query(**kw)
+            return a, qs.query(**kw)
         hint = hint or desc["wrap"] != "none"
     elif fam in ("stream", "bm"):
         n, d = 80, 2
@@ -272,8 +296,11 @@ def run_case(desc):
                 steps.end()
             contracts.count("C06.repeat-comparison")
             if not _eq(a, b):
+                how = ["second call with equal arguments built anew", "the literally identical call repeated (same array and model objects)",
+                       "fresh object vs an object that answered another call before (one more label, batch size - 1)"][
+                    (desc["seed"] >> 6) % 3] if fam == "pool" else "repeated call"
                 viol.append({"component": comp, "kind": "repeated-call-on-same-object-differs", "trigger": "any",
-                             "detail": "%s vs %s" % (_short(a), _short(b))})
+                             "detail": "%s: %s vs %s" % (how, _short(a), _short(b))})
         else:
             contracts.count("C06.repeat-comparison", 0)
     except steps.StepBudgetExceeded as ex:
